@@ -11,7 +11,9 @@ EXTENDS FoxStrings
 \*   brokenPipeWrapped / connResetNested   the same syscall error one level deeper inside the *net.OpError (wrapped
 \*                  with %w, or carried by a nested *net.OpError)
 Classes == {"abort", "wrappedAbort", "brokenPipe", "connReset", "brokenPipeWrapped", "connResetNested", "otherOpError", "error", "string", "nilval", "custom"}
-Progress == {"none", "header", "partial", "flushed"}    \* flushed: the header went out through Flush, no explicit WriteHeader
+Progress == {"none", "header", "partial", "flushed", "emptycopy"}   \* flushed: the header went out through Flush, no explicit WriteHeader
+\* emptycopy: the handler copied a source that yields nothing into the writer (ReadFrom / io.Copy): nothing went out
+NothingSent(progress) == progress \in {"none", "emptycopy"}
 
 Repanic(class) == class \in {"abort", "wrappedAbort"}
 Broken(class) == class \in {"brokenPipe", "connReset", "brokenPipeWrapped", "connResetNested"}
@@ -20,7 +22,7 @@ Broken(class) == class \in {"brokenPipe", "connReset", "brokenPipeWrapped", "con
 \* all), "untouched" (the response the handler had started stays as it is)
 Response(class, progress) ==
   IF Repanic(class) THEN "untouched"
-  ELSE IF progress # "none" THEN "untouched"
+  ELSE IF ~NothingSent(progress) THEN "untouched"
   ELSE IF Broken(class) THEN "nothing"
   ELSE "500"
 
